@@ -143,7 +143,7 @@ let stt_mode () =
           (string_of_str t.t_source) (string_of_str t.t_target) (string_of_str t.t_event)
           (string_of_str t.t_guard) (string_of_str t.t_action)
       done;
-      print_string "\n"
+      Printf.printf "CI\x1f%d\x1fCT\x1f%d\n" (int_of_nat (count_inits s)) (int_of_nat (count_terminates s))
     done with End_of_file -> ())
 
 let guard_mode () =
